@@ -40,7 +40,13 @@ Allowed(i, lv) == IF ~Rows[i].claimed THEN {}
 \*                                                    is refused, it never "matches" an empty slot
 \*                                      "prelude" - (functions returning a string) a VALID call is made first and its result is kept:
 \*                                                  the refused call must leave that earlier result as it was (static result buffers)
+\*                                      "count" / "beyond" - every index argument at the number of elements of the container (the
+\*                                                  "append" position) / two past it: no position is a licence to skip the guard
+\*                                      "empties" - the OTHER arguments in their empty content class: empty list, "" string, a
+\*                                                  pattern that accepts the empty string (NULL is not "the empty value")
 Variants(i) == {"mid"} \cup (IF Rows[i].nint > 0 THEN {"zero"} ELSE {})
+                       \cup (IF Rows[i].nidx > 0 THEN {"count", "beyond"} ELSE {})
+                       \cup (IF Rows[i].hasempty THEN {"empties"} ELSE {})
                        \cup (IF Rows[i].haslist THEN {"nullslots"} ELSE {})
                        \cup (IF Rows[i].retchars THEN {"prelude"} ELSE {})
                        \cup (IF Rows[i].nsigned > 0 THEN {"neg"} ELSE {})
